@@ -16,7 +16,7 @@ from ir import walk, strip, expr_str, access_path
 from rules import c09
 
 PID = "C01"
-UNITS = dict(components={"clstepcore", "cldai", "clutils", "cleditor", "exp2cxx"})
+UNITS = dict(components={"clstepcore", "cldai", "clutils", "cleditor", "exp2cxx"}, files=["src/express/ordered_attrs.cc"])
 EXPLANATION = (
     "Structural clauses of the round trip: (R1) sibling agreement of the dispatch on PrimitiveType in "
     "STEPattribute::{STEPread, STEPwrite, asStr, set_null, is_null, ShallowCopy, StrToVal, ValidLevel}: every kind "
@@ -510,7 +510,123 @@ def r7_aggregate_null_flag(prog, res):
     res.floor("R7.aggregate_null_flag_decided", "aggregate readers with a non-constant severity return", n, 3)
 
 
+def r8_derived_mark(prog, res):
+    """`*` is written for an attribute that a subtype re-declares in its DERIVE clause, and only for that.  The generator learns it
+    from `orderedAttr::deriver` (initializeAttrs() emits MakeDerived() for every entry that has one, and STEPattribute::STEPwrite
+    prints `*` for a derived attribute before it looks at anything else), so every store of an entity into `deriver` must stand on
+    paths where the re-declaring Variable's `initializer` was seen non-null: an explicit re-declaration (`SELF\\a.x : narrower;`)
+    keeps its value in the file.  Second clause: the emission of MakeDerived() is still decided by `deriver`."""
+    import pathstate
+    from engines import is_null_const, enclosing_conditions, conjuncts
+    n = 0
+
+    def test_of(cn):
+        """(decl of the Variable whose initializer is tested, polarity) of an atomic condition"""
+        pol = True
+        c = strip(cn)
+        while c is not None:
+            if c["k"] == "Unary" and c.get("op") == "!":
+                pol = not pol
+                c = strip(c["ch"][0])
+                continue
+            if c["k"] == "Paren" and c.get("ch"):
+                c = strip(c["ch"][0])
+                continue
+            if c["k"] == "Binary" and c.get("op") in ("!=", "==") and len(c.get("ch") or []) == 2:
+                a, b = c["ch"]
+                if is_null_const(b):
+                    other = a
+                elif is_null_const(a):
+                    other = b
+                else:
+                    return None
+                if c["op"] == "==":
+                    pol = not pol
+                c = strip(other)
+                continue
+            break
+        if c is None or c["k"] != "Member" or not (c.get("q") or "").endswith("Variable_::initializer") or not c.get("ch"):
+            return None
+        b = strip(c["ch"][0])
+        return (b.get("d") if b is not None and b["k"] == "Ref" else expr_str(b), pol)
+
+    for f in prog.all_functions():
+        if f.component == "test" or f.cfg is None:
+            continue
+        stores = []
+        for a in f.walk():
+            if a["k"] == "Assign" and a.get("op", "=") == "=" and a.get("ch"):
+                l = strip(a["ch"][0])
+                if l is not None and l["k"] == "Member" and l.get("n") == "deriver" and \
+                        not is_null_const(a["ch"][1]):
+                    stores.append(a)
+        if not stores:
+            continue
+        bad = {}
+        ids = {a["i"] for a in stores}
+
+        def on_node(nd, ts, env, bad=bad, ids=ids):
+            k = nd["k"]
+            if k in ("Assign", "Var") and ts:
+                d = None
+                if k == "Var":
+                    d = nd.get("d")
+                elif nd.get("ch"):
+                    l = strip(nd["ch"][0])
+                    if l is not None and l["k"] == "Ref":
+                        d = l.get("d")
+                if d is not None:
+                    ts = tuple(t for t in ts if t[0] != d)
+            if nd["i"] in ids and not any(t[1] for t in ts):
+                bad.setdefault(nd["i"], nd)
+            return ts
+
+        def on_edge(cn, br, ts, env):
+            t = test_of(cn)
+            if t is None:
+                return ts
+            return tuple(sorted(set(x for x in ts if x[0] != t[0]) | {(t[0], t[1] == br)}))
+        try:
+            pathstate.walk(f, (), on_node, on_edge=on_edge)
+        except pathstate.Budget as ex:
+            res.broke("R8: %s" % ex)
+            continue
+        for a in stores:
+            n += 1
+            ok = a["i"] not in bad
+            res.add("R8.derived_mark_follows_derive_clause", "R8|%s|%s|%s" % (f.relfile(), f.name, expr_str(a["ch"][0])[:40]),
+                    f.where(a), ok,
+                    "`%s = %s` is reached only where the re-declaring attribute's `initializer` is non-null" %
+                    (expr_str(a["ch"][0])[:40], expr_str(a["ch"][1])[:20]) if ok else
+                    "`%s = %s` is reached on a path that has not seen the re-declaring attribute's `initializer` non-null: an explicit "
+                    "re-declaration (`SELF\\super.attr : narrower_type;`) then makes the generated constructor call MakeDerived() and the "
+                    "attribute's value is written back as `*`" % (expr_str(a["ch"][0])[:40], expr_str(a["ch"][1])[:20]))
+    res.floor("R8.derived_mark_follows_derive_clause", "stores of an entity into orderedAttr::deriver", n, 2)
+    # the emission is decided by the mark
+    m = 0
+    for f in prog.all_functions():
+        if f.component != "exp2cxx":
+            continue
+        for c in f.walk():
+            if c["k"] != "Call" or (c.get("fn") or "").rsplit("::", 1)[-1] != "fprintf":
+                continue
+            fmt = next((x.get("s") for x in walk(c) if x["k"] == "Str" and "MakeDerived(" in (x.get("s") or "")), None)
+            if fmt is None:
+                continue
+            m += 1
+            facts_ = []
+            for cond, br in enclosing_conditions(f, c):
+                facts_.extend(conjuncts(cond, br))
+            ok = any(pol and strip(nd_) is not None and strip(nd_)["k"] == "Member" and
+                     strip(nd_).get("n") == "deriver" for nd_, pol in facts_)
+            res.add("R8.derived_mark_follows_derive_clause", "R8|emit|%s|%s" % (f.relfile(), f.name), f.where(c), ok,
+                    "MakeDerived() is emitted only for entries whose `deriver` is set" if ok else
+                    "MakeDerived() is emitted without testing the entry's `deriver`: attributes nobody derives are written as `*`")
+    res.floor("R8.derived_mark_follows_derive_clause", "emissions of MakeDerived() in the generator", m, 1)
+
+
 def run(prog, res, tier):
+    r8_derived_mark(prog, res)
     r7_aggregate_null_flag(prog, res)
     r5_select_io(prog, res)
     r1_dispatch(prog, res)
@@ -519,4 +635,5 @@ def run(prog, res, tier):
     c09.r6_enum_item_match(prog, res)
     c09.r9_lookahead_not_stale(prog, res)
     c09.r10_integer_buffer_fits(prog, res)
+    c09.r12_closing_quote_lookahead(prog, res)
     r4_order(prog, res)
